@@ -16,6 +16,18 @@ import (
 	"time"
 )
 
+// Config is what bin/check hands to every property harness.
+type Config struct {
+	Goderive string // goderive binary built from the repository under test (no build tag)
+	Repo     string // source tree of the repository under test
+	Work     string // scratch directory
+	Out      string // observation files + meta.json
+	Seed     uint64
+	Tier     string // quick | thorough
+	Corpus   string // /verif/corpus/<ID>
+	Verif    string // the /verif tree
+}
+
 // ---------- PRNG: one splitmix64 state; every random choice derives from it ----------
 
 type Rand struct{ s uint64 }
